@@ -984,7 +984,7 @@ class FuncVerifier(object):
             if m is None:
                 raise OutOfFragment('%s has no __neg__' % o.cls, n)
             mfile, mcls, mdef = m
-            callee = self.lib.contracts.get('%s::%s.__neg__' % (mfile, mcls))
+            callee = self.select_variant(mfile, mcls, '__neg__', [v], st)
             if callee is not None:
                 return self.call_contract('%s.__neg__' % mcls, [v], n, st, mfile, callee=callee)
             return self.inline_call(mfile, mcls, mdef, [v], {}, st, n)
@@ -1076,7 +1076,7 @@ class FuncVerifier(object):
             if m is None:
                 raise OutOfFragment('%s has no %s' % (o.cls, dunder), n)
             mfile, mcls, mdef = m
-            callee = self.lib.contracts.get('%s::%s.%s' % (mfile, mcls, dunder))
+            callee = self.select_variant(mfile, mcls, dunder, [a, b], st)
             if callee is not None:
                 return self.call_contract('%s.%s' % (mcls, dunder), [a, b], n, st, mfile, callee=callee)
             return self.inline_call(mfile, mcls, mdef, [a, b], {}, st, n)
@@ -1290,8 +1290,8 @@ class FuncVerifier(object):
             recv, meth = f[1], f[2]
             o = st.heap[recv.loc]
             mfile, mcls, mdef = self.find_method(o.cls, meth)
-            callee = self.lib.contracts.get('%s::%s.%s' % (mfile, mcls, meth))
-            if callee is not None and not kwargs:
+            callee = self.select_variant(mfile, mcls, meth, [recv] + args, st) if not kwargs else None
+            if callee is not None:
                 return self.call_contract('%s.%s' % (mcls, meth), [recv] + args, n, st, mfile, callee=callee)
             return self.inline_call(mfile, mcls, mdef, [recv] + args, kwargs, st, n)
         if isinstance(f, Tag) and f.kind == 'boundmethod':
@@ -1322,6 +1322,53 @@ class FuncVerifier(object):
         return args, kwargs
 
     # ------------------------------------------------------------------ classes, methods, inlining
+    def select_variant(self, mfile, mcls, meth, args, st):
+        """the contract (variant) of a method whose declared parameter classes accept the actual arguments; the most specific
+        receiver class wins.  None if no variant fits (the call is then inlined)."""
+        base = '%s::%s.%s' % (mfile, mcls, meth)
+        cands = [c for k, c in self.lib.contracts.items() if k == base or k.startswith(base + '#')]
+        best, best_rank = None, -1
+        for c in cands:
+            if c.key == self.c.key:
+                continue                      # never use the contract under verification for its own body
+            params = c.params
+            actual = list(args) + [c.defaults[p] if p in c.defaults else Unbound('missing') for p, _ in params[len(args):]]
+            if len(actual) != len(params) or any(isinstance(a, Unbound) for a in actual):
+                continue
+            ok, rank = True, 0
+            for (p, ty), a in zip(params, actual):
+                if isinstance(ty, dict):
+                    if not (isinstance(a, Ref) and isinstance(st.heap.get(a.loc), Obj)):
+                        ok = False
+                        break
+                    cls = st.heap[a.loc].cls
+                    if not self.is_subclass(cls, ty['cls']) or (ty.get('exact') and cls != ty['cls']):
+                        ok = False
+                        break
+                    if any(f not in st.heap[a.loc].fields for f in ty['fields']):
+                        ok = False
+                        break
+                    rank += len(self.class_chain(ty['cls']))          # deeper class = more specific
+                elif ty == 'none':
+                    if a is not None:
+                        ok = False
+                        break
+                elif isinstance(ty, tuple) and ty and ty[0] == 'const':
+                    if not (isinstance(a, PyConst) and a.value == ty[1]):
+                        ok = False
+                        break
+                elif isinstance(ty, str) and ty in TYPE_ARR:
+                    if not isinstance(a, (Ref, View, AV)):
+                        ok = False
+                        break
+                else:
+                    if isinstance(a, (Ref, View, AV)) or a is None:
+                        ok = False
+                        break
+            if ok and rank > best_rank:
+                best, best_rank = c, rank
+        return best
+
     def cur_file(self):
         return getattr(self, '_cur_file', self.filekey)
 
